@@ -14,7 +14,7 @@ def make_templates(root, PROPS='PROPS', CUTS='CUTS', LIB='LIB'):
         'pr':          '{@root}/{prj}/{kind:PROPS}',
 
         'ct__file':    '{@root}/{prj}/{kind:CUTS}/{reel}/{rev}/OUT/{reel}-{status}.{rev}.{fmt:movies}',
-        'ct__sound':   '{@root}/{prj}/{kind:CUTS}/{reel}/{rev}/SND/{reel}-{status}.{rev}.{fmt:sounds}',
+        'ct__sound':   '{@root}/{prj}/{kind:CUTS}/{reel}/{status}/{rev}/SND/{reel}-{status}.{rev}.{fmt:sounds}',   # {status} comes BEFORE {rev} here (not the Sid's key order)
         'ct__rev':     '{@root}/{prj}/{kind:CUTS}/{reel}/{rev}',
         'ct__reel':    '{@root}/{prj}/{kind:CUTS}/{reel}',
         'ct':          '{@root}/{prj}/{kind:CUTS}',
